@@ -331,7 +331,8 @@ func (nfc *NfcSession) ReadFile(fileId uint16) (fileData []byte, err error) {
 		}
 
 		totalBytes = int(tmpTlvLength)
-		totalBytes += 4 - tmpBuf.Len()
+		// NB header size is based on what the chip actually returned (may be <4 bytes)
+		totalBytes += len(fileHeader) - tmpBuf.Len()
 	}
 
 	// read remainder of file
@@ -390,6 +391,9 @@ func (nfc *NfcSession) ReadFile(fileId uint16) (fileData []byte, err error) {
 		if len(fileData) != totalBytes {
 			return nil, fmt.Errorf("[ReadFile] Data read differs to expected length (exp:%d, act:%d)", totalBytes, len(fileData))
 		}
+	} else {
+		// initial read already covers the whole TLV (ignore any bytes beyond it)
+		fileData = bytes.Clone(fileBuf.Bytes()[:totalBytes])
 	}
 
 	slog.Debug("ReadFile", "fileId", fileId, "data", utils.BytesToHex(fileData))
